@@ -972,8 +972,14 @@ def logb(x: Real, ctx: Context = REAL) -> Float:
     For non-zero arguments, `logb(x) = floor(log_{b}(abs(x)))`, where
     `b` is the base of the floating-point representation
     """
-    # TODO: compute `logb` for a non-dyadic fraction
-    x = _cvt_to_float(x)
+    x = _cvt_to_real(x)
+    if isinstance(x, Fraction):
+        # a non-dyadic rational (never zero): floor(log2(abs(x))), exactly
+        n, d = abs(x.numerator), x.denominator
+        e = n.bit_length() - d.bit_length()
+        if (n << -e if e < 0 else n) < (d << e if e > 0 else d):
+            e -= 1
+        return ctx.round(RealFloat.from_int(e))
     if x.is_nonzero():
         # finite, non-zero => floor(log2(abs(x)))
         return ctx.round(RealFloat.from_int(x.e))
